@@ -177,7 +177,7 @@ PROPS["C19"] = {
 PROPS["C15"] = {
     "title": "Walking a curve tiles the parameter range with the requested spacing",
     "gen_modules": ["Basis", "Walk"],
-    "props_modules": ["C15", "C15Vary"],
+    "props_modules": ["C15", "C15Vary", "C15Progress"],
     "corr_n": (2000, 40000),
     "search_n": (2000, 40000),
     "technique": "Lean 4 theorems about the walk iterators translated WHOLE from walk.rs (inner loop included, as an opaque fuel iteration) + bit-exact Float mirror of the iterators run to exhaustion",
@@ -188,8 +188,11 @@ PROPS["C15"] = {
                   "assignments to the nested fields); varied_tiling - for ANY distance iterator (a state and a next function: finite lists, cycles, zero and negative distances, ending whenever) the sections of the "
                   "varied walk start where the walk stands, chain exactly, none ends after 1, and a finished walk ends at exactly 1 (tiling_of_step: one abstract induction used for every iterator whose steps behave "
                   "like EvenWalkIterator::next); vary_step_spec / vary_step_distance_pos (the new distance is max(x, 1e-10) > 0, the increment is scaled by the ratio); varyUpdate_eq_generated: C20's hand model of "
-                  "this step equals the generated code. The generated iterators (Float) reproduce the implementation's sections bit for bit, varied walks (cycled and used-up distance lists) included.",
-    "level_note": "Partial: termination (a lower bound on the increments) and the chord-length accuracy within max_error (convergence of the controller within 32 iterations) are not theorems; "
+                  "this step equals the generated code. Progress (Props/C15Progress, the step controller opened): inc_update_pos - every update inside the loop keeps the parameter increment positive whatever the distances and the speed are "
+                  "(a Newton correction that would make it non-positive is replaced by a division by three); even_next_progress / evenFrom_progress - from a positive increment every section (a, b) has a < b and the "
+                  "increment kept for the next step is positive; walk_start_increment_pos (sqrt non-negative) and vary_step_increment_pos - the constructor and vary_by keep it positive: the walk never stalls on a "
+                  "section of zero or negative length. The generated iterators (Float) reproduce the implementation's sections bit for bit, varied walks (cycled and used-up distance lists) included.",
+    "level_note": "Partial: termination (a lower bound on the increments: progress is proved, a bound is not) and the chord-length accuracy within max_error (convergence of the controller within 32 iterations) are not theorems; "
                   "they are covered by the search on non-vanishing-speed curves. The glue of VaryingWalkIterator::next around vary_step (ask the iterator, drop it when exhausted, call the even iterator) is the 10-line variedStep of Props/C15Vary, tied by the bit-exact run. " + COMMON_NOTE,
     "rule": "corr: even walks (distance 0.5%..200% of the length, max_error 1..25% of it, up to 3000 sections) uneven walks n in 1..300 and varied walks (0..5 distances incl. 0 and negative ones, cycled or used up, up to 2000 sections), compared section by section with the generated iterators. "
             "search: tiling exactness, chord spacing on non-vanishing-speed curves, termination cap, uneven counts/widths, vary_by tiling. Non-trivial: more than one section; distinct by input.",
